@@ -1,0 +1,41 @@
+//! Verification hook (cargo feature `verif`): entry counts of every map of this index.
+//! The exhaustive destructuring makes a new field break this build until it is accounted for.
+use super::LuaTypeIndex;
+
+impl LuaTypeIndex {
+    pub fn verif_report(&self) -> Vec<(&'static str, usize)> {
+        let Self {
+            file_namespace,
+            file_using_namespace,
+            file_types,
+            full_name_type_map,
+            generic_params,
+            supers,
+            types,
+            in_filed_type_owner,
+            global_name_type_map,
+            internal_name_type_map,
+            local_name_type_map,
+        } = self;
+        vec![
+            ("type.file_namespace", file_namespace.len()),
+            ("type.file_using_namespace", file_using_namespace.len()),
+            ("type.file_using_namespace.items", file_using_namespace.values().map(|v| v.len()).sum()),
+            ("type.file_types", file_types.len()),
+            ("type.file_types.items", file_types.values().map(|v| v.len()).sum()),
+            ("type.full_name_type_map", full_name_type_map.len()),
+            ("type.full_name_type_map.items", full_name_type_map.values().map(|d| d.get_locations().len()).sum()),
+            ("type.generic_params", generic_params.len()),
+            ("type.supers", supers.len()),
+            ("type.supers.items", supers.values().map(|v| v.len()).sum()),
+            ("type.types", types.len()),
+            ("type.in_filed_type_owner", in_filed_type_owner.len()),
+            ("type.in_filed_type_owner.items", in_filed_type_owner.values().map(|v| v.len()).sum()),
+            ("type.global_name_type_map", global_name_type_map.len()),
+            ("type.internal_name_type_map", internal_name_type_map.len()),
+            ("type.internal_name_type_map.items", internal_name_type_map.values().map(|v| v.len()).sum()),
+            ("type.local_name_type_map", local_name_type_map.len()),
+            ("type.local_name_type_map.items", local_name_type_map.values().map(|v| v.len()).sum()),
+        ]
+    }
+}
